@@ -27,7 +27,8 @@ def run(tier: str) -> int:
     small = H.default_events(uni, "small")
     extra_adds = [("add", k) for k in ("x<u2", "x==5", "x+1==5", "!c", "x==6")]
     ev_repl = [e for e in small if e not in {("add", "y>u6"), ("add", "x==1|x==6"), ("downsize",), ("eval", "x", 2, "none"), ("max", "x", "u", "x==6"), ("min", "x", "s", "y<u2"), ("max", "x", "s", "y<u2")}] + extra_adds
-    if tier == "quick":  # the full alphabet (32 events, 57 000 histories at depth 3) is kept for the thorough tier
+    ev_repl_full = list(ev_repl)
+    if True:  # the trimmed alphabet; the full one (32 events, 57 000 histories at depth 3) runs in the thorough tier
         drop = {("add", "c"), ("add", "x!=0"), ("eval", "x", 9, "y>u6"), ("eval", "x+y", 9, "none"), ("beval", "x,y", 2, "y<u2"), ("min", "x", "s", "none"), ("max", "x", "u", "y<u2"), ("sol", "x+y", 7, "none"), ("isfalse", "x==0", "none"), ("pickle",), ("add", "!c")}
         ev_repl = [e for e in ev_repl if e not in drop]
     ev_q = [
@@ -53,8 +54,10 @@ def run(tier: str) -> int:
         ]
     else:
         plan = [
-            ("SolverReplacement", {}, ev_repl, 4, 3, ""),
-            ("SolverReplacement", {"auto_replace": False}, ev_q, 3, 3, "auto_replace=False"),
+            # exact failing-history sets are recorded for SolverReplacement: no state merging (see histspace.explore)
+            ("SolverReplacement", {}, ev_repl_full, 3, 3, "", False),
+            ("SolverReplacement", {}, ev_repl, 4, 3, "d4", False),
+            ("SolverReplacement", {"auto_replace": False}, ev_q, 3, 3, "auto_replace=False", False),
             ("SolverHybrid", {}, small + extra_adds, 3, 3, "exact"),
             ("SolverHybrid", {}, ev_q, 4, 3, "exact-d4"),
             ("SolverHybrid", {"exact_false": True, "approx": True}, small + extra_adds, 3, 3, "exact=False"),
